@@ -734,17 +734,37 @@ func (b *backend) pathRevokeIssuer(ctx context.Context, req *logical.Request, da
 	// we check in CRL building, but this step satisfies other guarantees
 	// within Vault.
 	certEntry, err := fetchCertBySerial(sc, "certs/", issuer.SerialNumber)
-	if err == nil && certEntry != nil {
+	if err == nil {
 		// We've inverted this error check as it doesn't matter; we already
 		// consider this certificate revoked.
-		storageCert, err := x509.ParseCertificate(certEntry.Value)
-		if err != nil {
-			return nil, fmt.Errorf("error parsing stored certificate value: %w", err)
-		}
-
 		issuerCert, err := issuer.GetCertificate()
 		if err != nil {
 			return nil, fmt.Errorf("error parsing issuer certificate value: %w", err)
+		}
+
+		storageCert := issuerCert
+		if certEntry != nil {
+			storageCert, err = x509.ParseCertificate(certEntry.Value)
+			if err != nil {
+				return nil, fmt.Errorf("error parsing stored certificate value: %w", err)
+			}
+		} else {
+			// Nothing is stored under this serial number: the issuer was
+			// imported rather than generated or signed by this mount. Store
+			// its certificate by serial number now, as root generation and
+			// sign-intermediate do, so that the revocation entry below is
+			// written: cert/<serial> and OCSP only know about revocations
+			// recorded there, and would otherwise keep reporting the
+			// revoked issuer as good.
+			key := "certs/" + normalizeSerial(issuer.SerialNumber)
+			certsCounted := b.certsCounted.Load()
+			if err := req.Storage.Put(ctx, &logical.StorageEntry{
+				Key:   key,
+				Value: issuerCert.Raw,
+			}); err != nil {
+				return nil, fmt.Errorf("unable to store certificate locally: %w", err)
+			}
+			b.ifCountEnabledIncrementTotalCertificatesCount(certsCounted, key)
 		}
 
 		if bytes.Equal(issuerCert.Raw, storageCert.Raw) {
